@@ -15,6 +15,8 @@ import (
 	"sigs.k8s.io/gateway-api/apis/v1alpha3"
 	"sigs.k8s.io/gateway-api/apis/v1beta1"
 
+	ngfAPIv1alpha1 "github.com/nginx/nginx-gateway-fabric/apis/v1alpha1"
+	ngfAPIv1alpha2 "github.com/nginx/nginx-gateway-fabric/apis/v1alpha2"
 	"github.com/nginx/nginx-gateway-fabric/internal/framework/helpers"
 
 	vu "github.com/nginx/nginx-gateway-fabric/internal/verifutil"
@@ -200,5 +202,23 @@ func vpWipeStatuses(w *vpWorld) {
 			btps.Items[i].Status.Ancestors = vsFullAncestors() // part of the input state, not written by NGF
 		}
 		_ = w.k8s.Status().Update(ctx, &btps.Items[i])
+	}
+	var ops ngfAPIv1alpha2.ObservabilityPolicyList
+	_ = w.k8s.List(ctx, &ops)
+	for i := range ops.Items {
+		ops.Items[i].Status = v1alpha2.PolicyStatus{}
+		_ = w.k8s.Status().Update(ctx, &ops.Items[i])
+	}
+	var csps ngfAPIv1alpha1.ClientSettingsPolicyList
+	_ = w.k8s.List(ctx, &csps)
+	for i := range csps.Items {
+		csps.Items[i].Status = v1alpha2.PolicyStatus{}
+		_ = w.k8s.Status().Update(ctx, &csps.Items[i])
+	}
+	var usps ngfAPIv1alpha1.UpstreamSettingsPolicyList
+	_ = w.k8s.List(ctx, &usps)
+	for i := range usps.Items {
+		usps.Items[i].Status = v1alpha2.PolicyStatus{}
+		_ = w.k8s.Status().Update(ctx, &usps.Items[i])
 	}
 }
